@@ -297,11 +297,18 @@ def main(ctx):
                     ctx.case(r[1], nontrivial=True)
                 elif r[0] == "violation":
                     ctx.violation(r[1], r[2], r[3])
+                elif r[0] == "inconclusive" and "original run raised" in r[1]:
+                    # the uninterrupted run itself ends in an exception (with and without dumping alike): nothing to resume
+                    # and nothing to compare; that scenario decides nothing, tolerated for a small part of the workload only
+                    ctx.count("scenarios_whose_original_run_raised")
+                    ctx.notes.append(r[1][:400])
                 elif r[0] == "inconclusive":
                     ctx.inconclusive.append(r[1])
                 elif r[0] == "sample":
                     ctx.sample(r[1], limit=8)
     installed_layout(ctx)
+    if ctx.counters.get("scenarios_whose_original_run_raised", 0) > max(1, len(scns) // 10):
+        ctx.inconclusive.append(f"{ctx.counters['scenarios_whose_original_run_raised']} of {len(scns)} original runs raised")
     ctx.require("installed_layout_dump_points_resumed", 1)
     ctx.require("dump_points_resumed", 40)
     ctx.require("dump_points_identical_with_long_tail", 20)
